@@ -54,6 +54,15 @@ class Abort(Exception):
         self.why = why
 
 
+META_LEAVES = {
+    'Integer': lambda ME: ME.Integer(), 'Integer5_120': lambda ME: ME.Integer(5, 120), 'NegInt': lambda ME: ME.NegativeInteger(0, 99),
+    'Decimal': lambda ME: ME.Decimal(0, 9, 1, 2), 'Date': lambda ME: ME.Date('dd/mm/yyyy'), 'Date2': lambda ME: ME.Date(['d/m/yy', 'yyyy-mm-dd']),
+    'IPv4': lambda ME: ME.IPv4(), 'Word': lambda ME: ME.Word(2, 3), 'WordContains': lambda ME: ME.WordContains(['a', 'b|c']),
+    'Numeral2': lambda ME: ME.Numeral(2, 1, 1), 'IntegerExt': lambda ME: ME.Integer(3, 7, is_extensible=True), 'Email': lambda ME: ME.Email(),
+    'HttpUrl': lambda ME: ME.HttpUrl(),
+}
+
+
 class CaseTimeout(Exception):
     pass
 
@@ -375,6 +384,16 @@ class Interp:
     def op_raw(self, t, f):
         s = t['s']
         return self.call('Pregex', 'c', lambda: Pregex(s, escape=False), lambda: S.Raw(s), [], flags=['raw'])
+
+    def op_meta(self, t, f):
+        # an operand produced by the meta layer: a trusted, opaque leaf (what it matches is C15-C19's business)
+        from pregex.meta import essentials as ME
+        mk = META_LEAVES[t['n']]
+        try:
+            real = mk(ME)
+        except Exception as e:
+            raise S.MonitorError('meta leaf %s failed: %r' % (t['n'], e))
+        return self.P(real, S.Lib(str(real)))
 
     def op_bref(self, t, f):
         r = t['r']
